@@ -6,7 +6,7 @@ Model of tuple validation, step for step (core Lean only):
                                       validateTuplesetRestrictions, validateTypeRestrictions, validateCondition,
                                       ValidateStruct (forbidden characters)
   pkg/server/commands/write.go        validateWriteRequest (per written tuple: ValidateTupleForWrite, validateNotImplicit,
-                                      context size limit; per deleted key: tuple.IsValidUser only)
+                                      context size limit; per deleted key: IsValidObject, IsValidRelation, IsValidUser)
   pkg/server/commands/check_command.go validateCheckRequest (contextual tuples: ValidateTupleForWrite only)
   openfga/api  *.pb.validate.go       TupleKey / TupleKeyWithoutCondition / RelationshipCondition (request validation
                                       run by Server.Write / Server.Check before the command)
@@ -327,8 +327,40 @@ def writeCheck (std : Std) (limit : Nat) (m : Model) (t : Tuple) : R := do
 /-- one contextual tuple in `validateCheckRequest` (Check, and the same loop in ListObjects / ListUsers / Expand) -/
 def contextualCheck (std : Std) (m : Model) (t : Tuple) : R := validateForWrite std m t
 
-/-- one deleted key in `validateWriteRequest` -/
-def deleteCheck (user : Bytes) : R := if isValidUser user then .ok () else .error .userMalformed
+/-- one deleted key in `validateWriteRequest`: `IsValidObject`, `IsValidRelation`, `IsValidUser`, in this order
+(`Gen.Validation.deleteChecks`) -/
+def deleteCheck (obj rel user : Bytes) : R :=
+  if !isValidObject obj then .error .objectFormat
+  else if !isValidRelation rel then .error .relMalformed
+  else if !isValidUser user then .error .userMalformed
+  else .ok ()
+
+/-! ### `WriteCommand.Execute`: validate everything, then one datastore call -/
+
+structure WriteReq where
+  deletes : List (Bytes × Bytes × Bytes)
+  writes : List Tuple
+
+def checkAll {α : Type} (f : α → R) : List α → R
+  | [] => .ok ()
+  | x :: xs => do f x; checkAll f xs
+
+/-- the validation loops of `validateWriteRequest` (writes first, then deletes; the duplicate / batch-size checks
+belong to C12) -/
+def validateWriteRequest (std : Std) (limit : Nat) (m : Model) (req : WriteReq) : R := do
+  checkAll (writeCheck std limit m) req.writes
+  checkAll (fun k => deleteCheck k.1 k.2.1 k.2.2) req.deletes
+
+/-- `Execute` over an abstract datastore `ds` (state `S`, its own errors `E`): the request is validated first and the
+datastore is only called when validation passed -/
+def execute {S E : Type} (ds : S → WriteReq → Except E S) (std : Std) (limit : Nat) (m : Model) (st : S) (req : WriteReq) :
+    S × Except (Err ⊕ E) Unit :=
+  match validateWriteRequest std limit m req with
+  | .error e => (st, .error (.inl e))
+  | .ok _ =>
+    match ds st req with
+    | .error e => (st, .error (.inr e))      -- the datastore's own atomicity is C12's business
+    | .ok st' => (st', .ok ())
 
 /-! ### request validation in front of the commands (generated protoc-gen-validate code) -/
 
@@ -364,7 +396,7 @@ def apiContextual (std : Std) (m : Model) (t : Tuple) : R :=
 
 /-- `Server.Write` with one deleted key -/
 def apiDelete (obj rel user : Bytes) : R :=
-  if !protoKey obj rel user then .error .proto else deleteCheck user
+  if !protoKey obj rel user then .error .proto else deleteCheck obj rel user
 
 /-! ### the memory backend's `match` (what an accepted delete key removes) -/
 
